@@ -191,10 +191,24 @@ impl<'a> Runner<'a> {
                             let latest_v: Vec<u32> = latest.parse().ok().into_iter().collect();
                             if p.get(7).copied() == Some("1") && a == latest_v { sig = "iso:nonrepeatable-read".into(); break; }
                         }
-                        if sig == "iso:read-other" && sc.steps[..i].iter().any(|(h2, s2)| h2 != h && *s2 == IStmt::Rollback) {
-                            // another handle's ROLLBACK re-installed its old values over rows this or a third
-                            // handle had written and committed in the meantime
-                            sig = "iso:rollback-overwrites-committed-write".into();
+                        if sig == "iso:read-other" {
+                            // a ROLLBACK of another handle before this read: did it re-install its undo images over a
+                            // row that somebody else wrote in the meantime (listed defect), or does a value written
+                            // by the aborted transaction itself survive the ROLLBACK?
+                            let writes = |s2: &IStmt, k: u32| match s2 { IStmt::Ins(k2, _) | IStmt::Upd(k2, _) | IStmt::Del(k2) => *k2 == k, _ => false };
+                            let diff: Vec<u32> = { let mut ks: Vec<u32> = exp.iter().chain(act.iter()).map(|x| x.0).collect(); ks.sort(); ks.dedup();
+                                ks.into_iter().filter(|k| exp.iter().filter(|x| x.0 == *k).map(|x| x.1).collect::<Vec<_>>() != act.iter().filter(|x| x.0 == *k).map(|x| x.1).collect::<Vec<_>>()).collect() };
+                            'outer: for (ri, (h2, s2)) in sc.steps[..i].iter().enumerate().rev() {
+                                if h2 == h || *s2 != IStmt::Rollback { continue; }
+                                let bi = sc.steps[..ri].iter().rposition(|(hh, ss)| hh == h2 && *ss == IStmt::Begin).unwrap_or(0);
+                                for k in &diff {
+                                    let Some(wi) = (bi..ri).find(|j| sc.steps[*j].0 == *h2 && writes(&sc.steps[*j].1, *k)) else { continue };
+                                    if (wi..ri).any(|j| sc.steps[j].0 != *h2 && writes(&sc.steps[j].1, *k)) { sig = "iso:rollback-overwrites-committed-write".into(); break 'outer; }
+                                    let aborted_vals: Vec<u32> = (bi..ri).filter(|j| sc.steps[*j].0 == *h2).filter_map(|j| match &sc.steps[j].1 { IStmt::Ins(k2, v) | IStmt::Upd(k2, v) if k2 == k => Some(*v), _ => None }).collect();
+                                    if act.iter().any(|x| x.0 == *k && aborted_vals.contains(&x.1)) { sig = "iso:aborted-write-visible-after-rollback".into(); break 'outer; }
+                                    sig = "iso:state-after-rollback-wrong".into(); break 'outer;
+                                }
+                            }
                         }
                         sig
                     }
@@ -253,7 +267,7 @@ fn templates() -> Vec<(&'static str, Vec<IStmt>)> {
 pub fn run(ctx: &Ctx) -> Report {
     let mut rep = Report::new(
         "sql_iso",
-        "2 handles: every ordered pair of 12 script templates (transactional insert/update/delete ending in COMMIT or ROLLBACK, snapshot readers, autocommit readers/writers; <= 3 statements each) x ALL interleavings; 3 handles: random triples of 2-statement scripts x all 90 interleavings; random layer: random scripts over keys {1,2,5,6,7}. One thread issues the statements; handles are clones of one Database. non-trivial = distinct schedule in which at least two handles issue statements",
+        "2 handles: every ordered pair of 12 script templates (transactional insert/update/delete ending in COMMIT or ROLLBACK, snapshot readers, autocommit readers/writers; <= 3 statements each) x ALL interleavings; 3 handles: random triples of 2-statement scripts x all 90 interleavings; random layer: random scripts over keys {1,2,5,6,7}; long-script layer: one transaction of 2-4 writes on rows 1/2 (repeated writes of one row) ending in ROLLBACK or COMMIT against a short reader/writer script. One thread issues the statements; handles are clones of one Database. non-trivial = distinct schedule in which at least two handles issue statements",
     );
     let mut r = Runner { ctx, model: Model::spawn(&ctx.model_bin, "mvcc"), db: None, dir: String::new(), used: 0, seq: 0 };
     for line in ctx.corpus_cases("C08") {
@@ -271,6 +285,14 @@ pub fn run(ctx: &Ctx) -> Report {
             "handles=2 init=1:10,2:20 steps=0.B;0.I5:50;1.U5:60;0.C",
             "handles=2 init=1:10,2:20 steps=1.B;0.B;0.I5:50;0.C;1.U5:60;1.C",
             "handles=3 init=1:10,2:20 steps=0.B;1.B;0.U1:11;1.U1:12;2.Q;0.C;2.Q;1.C;2.Q",
+            // one transaction writes the same row more than once, then aborts / commits: what the other handle reads afterwards
+            "handles=2 init=1:10,2:20 steps=0.B;0.U1:11;0.U1:12;0.R;1.Q",
+            "handles=2 init=1:10,2:20 steps=0.B;0.U1:11;1.Q;0.U1:12;0.R;1.Q;1.U1:30;1.Q",
+            "handles=2 init=1:10,2:20 steps=0.B;0.U1:11;0.D1;0.R;1.Q",
+            "handles=2 init=1:10,2:20 steps=0.B;0.U1:11;0.U2:21;0.U1:12;0.U2:22;0.R;1.Q",
+            "handles=2 init=1:10,2:20 steps=0.B;0.I5:50;0.U5:51;0.U5:52;0.R;1.Q",
+            "handles=2 init=1:10,2:20 steps=0.B;0.U1:11;0.U1:12;0.U1:13;0.C;1.Q",
+            "handles=2 init=1:10,2:20 steps=1.B;1.U2:25;0.B;0.U1:11;0.U1:12;1.C;0.R;1.Q;0.Q",
         ] {
             let sc = Sched::parse(line).expect("fixed schedule");
             r.run(&mut rep, &sc);
@@ -331,6 +353,28 @@ pub fn run(ctx: &Ctx) -> Report {
             let all = interleavings(&scripts);
             let i = rng.below(all.len() as u64) as usize;
             r.run(&mut rep, &Sched { nh, init: init.clone(), steps: all[i].clone() });
+        }
+    }
+    if ctx.replay.is_none() {
+        // longer scripts on few rows: repeated writes of one row inside one transaction
+        use IStmt::*;
+        let mut rng = Rng::new(ctx.seed ^ 0x10A6);
+        let init = vec![(1u32, 10u32), (2, 20)];
+        let nlong = if ctx.thorough { 1500 } else { 80 };
+        for _ in 0..nlong {
+            let mut a = vec![Begin];
+            for _ in 0..rng.range(2, 4) {
+                let k = *rng.pick(&[1u32, 1, 2]);
+                a.push(match rng.below(8) { 0 => Del(k), 1 => Read, _ => Upd(k, rng.range(30, 99) as u32) });
+            }
+            a.push(if rng.chance(2, 3) { Rollback } else { Commit });
+            let b = match rng.below(3) { 0 => vec![Read], 1 => vec![Read, Read], _ => vec![Upd(*rng.pick(&[1u32, 2]), rng.range(100, 120) as u32), Read] };
+            let mut all = interleavings(&[a.clone(), b.clone()]);
+            let i = rng.below(all.len() as u64) as usize;
+            let mut steps = all.swap_remove(i);
+            steps.push((1, Read));
+            rep.count("layer:long-scripts");
+            r.run(&mut rep, &Sched { nh: 2, init: init.clone(), steps });
         }
     }
     if let Some(db) = r.db.take() { let _ = guarded(std::panic::AssertUnwindSafe(move || drop(db))); let _ = std::fs::remove_dir_all(&r.dir); }
